@@ -11,6 +11,8 @@ import (
 // constant false or the result of BitVector.Equals on a vector read from the presence table.
 func c17Complete(r *core.Run) {
 	allSetCoverage(r, "C17.V1")
+	c17ReloadAll(r)
+	c17NoEmptyEntry(r)
 	fn := r.W.Func(ciPkg, "(*chunkInfoTabNeighbor).isDownload")
 	if fn == nil {
 		r.Fatal("unresolved anchor %s.(*chunkInfoTabNeighbor).isDownload", ciPkg)
